@@ -138,7 +138,7 @@ int main(int argc, char **argv) {
       std::string d, r = run_select(prov, key, algi, tk, &d, mode); st.evaluations++; st.cls("select-cells"); st.nontrivial_distinct();
       if (!r.empty()) st.violation("C19:" + r, "a key/alg selected by the callback is not treated like the same pair given to setkey", d);
     } }
-  uint64_t n = a.thorough() ? 40000 : 2500;
+  uint64_t n = a.thorough() ? 200000 : 2500;
   std::string params = "seed=" + std::to_string(a.seed * 1000 + a.worker) + " max_success=" + std::to_string(n) + " max_size=100";
   setenv("RC_PARAMS", params.c_str(), 1);
   Case lastfail; std::string lastwhy;
